@@ -107,6 +107,8 @@ class HeapMixin:
         if isinstance(v, VAny):
             if v.tag == "type" and attr == "__name__":
                 return VStr(z3.Const(self.run.fresh_name("typename"), z3.StringSort()))
+            if v.tag in ("hashobj", "json", "bytes", "match", "pattern", "uuid"):
+                return VBound(v, attr)
             return self.any_getattr(v, attr)
         if isinstance(v, VCallback):
             return VCallback(f"{v.name}.{attr}", v.spec.get(attr, {}) if isinstance(v.spec, dict) else {})
@@ -379,11 +381,14 @@ class HeapMixin:
     def symdict_val(self, ref, r, kt):
         if r.val is not None:
             return self.wrap(r.vtype, z3.Select(r.val, kt))
+        for ok, ov in reversed(r.over):
+            if self.run.decide(kt == ok, "key equals stored key"):
+                return ov
         if r.vtype[0] == "obj":
             nm = f"{r.sym}[{kt}]"
             cls = r.vtype[1]
             return self.sym_ref(nm, "obj", cls, lambda: ObjRec(cls, {}, sym=nm))
-        return self.fresh(r.vtype, self.run.fresh_name(f"{r.sym}[{kt}]"))
+        return self.fresh(r.vtype, f"{r.sym}[{kt}]")
 
     def dict_set(self, ref, k, v):
         r = self.run.rec(ref.oid)
@@ -406,7 +411,7 @@ class HeapMixin:
         if r.val is not None:
             r.val = z3.Store(r.val, kt, self.term_of(v, r.vtype))
         else:
-            raise E.Unsupported("store of non-primitive into symbolic dict")
+            r.over.append((kt, v))
 
     def dict_del(self, ref, k, raise_missing=True):
         run = self.run
